@@ -11,11 +11,27 @@ Open Scope N_scope.
 
 Definition src (l : list string) : list (list N) := map bytes_of_string l.
 
-(* aggressiveNODATAType (translated function, used directly by the model): exactly the meta/query types
-   NONE, OPT, TKEY, TSIG, IXFR, AXFR, MAILB, MAILA, ANY are refused *)
-Lemma gen_aggressive_nodata_type t :
+(* aggressiveNODATAType (translated function, used directly by the model): over the whole uint16 range
+   exactly the meta/query types NONE, OPT, TKEY, TSIG, IXFR, AXFR, MAILB, MAILA, ANY are refused.  Proved
+   by evaluating the generated function on all 65536 values, so a behaviour-preserving rewrite of the Go
+   function keeps the lemma and a behaviour-changing one breaks it. *)
+Fixpoint all_from (n : nat) (k : N) (p : N -> bool) : bool :=
+  match n with O => true | S n' => p k && all_from n' (N.succ k) p end.
+Lemma all_from_spec p n : forall k, all_from n k p = true -> forall t, k <= t -> t < k + N.of_nat n -> p t = true.
+Proof.
+  induction n as [|n IH]; intros k H t H1 H2; [lia|].
+  cbn in H. apply andb_true_iff in H. destruct H as [Hk Hr].
+  destruct (N.eq_dec t k) as [->|Hne]; [exact Hk|]. apply (IH (N.succ k) Hr); lia.
+Qed.
+Lemma gen_aggressive_nodata_type t : t < 65536 ->
   aggressive_nodata_type t = negb (existsb (N.eqb t) [0; 41; 249; 250; 251; 252; 253; 254; 255]).
-Proof. unfold aggressive_nodata_type, go_aggressiveNODATAType. cbn [existsb]. repeat (destruct (N.eqb t _)); reflexivity. Qed.
+Proof.
+  intros Ht. unfold aggressive_nodata_type.
+  assert (H : all_from (Nat.pow 2 16) 0
+                (fun t => Bool.eqb (go_aggressiveNODATAType t) (negb (existsb (N.eqb t) [0; 41; 249; 250; 251; 252; 253; 254; 255]))) = true)
+    by (vm_compute; reflexivity).
+  apply Bool.eqb_prop. apply (all_from_spec _ _ _ H); [lia|]. change (N.of_nat (Nat.pow 2 16)) with 65536. lia.
+Qed.
 
 (* aggressiveDelegationBitmap = deleg_bitmap: NS set and SOA clear *)
 Lemma gen_deleg_bitmap_src :
